@@ -147,7 +147,23 @@ func (h *history) step() bool {
 	var op string
 	ctx := context.Background()
 	pan, val, st := fw.Try(func() {
-		switch k := r.Intn(12); k {
+		switch k := r.Intn(13); k {
+		case 12: // an encode that must fail: the error path gives pooled buffers back too
+			cands := oversizeCandidates(h.ts)
+			oc := cands[r.Intn(len(cands))]
+			op = "encode-refused " + oc.t.Key()
+			v, _ := pdus.Gen(oc.t, r, -1, 0)
+			f := oc.t.Fields[oc.field]
+			big := nonNul(r, f.W+1+r.Intn(8))
+			if oc.elem {
+				v.F[f.Spec] = [][]byte{big}
+				v.F[f.Count] = uint64(1)
+			} else {
+				v.F[f.Spec] = big
+			}
+			if b, err := pdus.Build(oc.t, v).IEncode(); err == nil {
+				h.keepBytes(op, b)
+			}
 		case 0, 1: // encode
 			op = "encode " + t.Key()
 			v, _ := pdus.Gen(lt, r, -1, 0)
